@@ -954,6 +954,21 @@ func normalisePackage(pkgPath string, loadPkgs func(...string) ([]*packages.Pack
 					if fn == p.TypesInfo.Defs[fd.Name] { // direct recursion
 						skipped[key] = true
 					}
+					// a helper that calls itself is never unfolded: each unfolding brings another call of it along
+					if cfd := unknown[fn]; cfd != nil && cfd.Body != nil {
+						rec := false
+						ast.Inspect(cfd.Body, func(m ast.Node) bool {
+							if c2, ok := m.(*ast.CallExpr); ok {
+								if f2, _ := calleeObj(p.TypesInfo, c2).(*types.Func); f2 != nil && f2.Origin() == fn {
+									rec = true
+								}
+							}
+							return !rec
+						})
+						if rec {
+							skipped[key] = true
+						}
+					}
 					if !skipped[key] {
 						cands = append(cands, cand{f, call, fn, key, callerUnknown})
 					}
